@@ -217,8 +217,8 @@ Definition C03_sound_full : Prop :=
   forall P w s0 h, pc_filter P = None -> c_mask (pc_reader P) = WATCHDOG_ALL ->
     pinit P w = Some s0 -> sound_along P s0 [] h = true.
 
-(* FALSE of the code BEFORE the repair of F10 (c_fix_moveout = false; the other three reader repairs F1, F9, F14
-   switched on): a directory moved out of the tree keeps its kernel watch and its stale in-tree path;
+(* FALSE of the code BEFORE the repair of F10 (c_fix_moveout = false; the reader repairs F1, F9, F14 switched on;
+   c_fix_relabel is irrelevant for this history): a directory moved out of the tree keeps its kernel watch and its stale in-tree path;
    `mkdir R/d; drain; mv R/d O/d; drain; touch O/d/g; drain` delivers FileCreated(R/d/g). *)
 Theorem C03_sound_refuted_phantom :
   exists P w s0 h, pc_filter P = None /\ c_mask (pc_reader P) = WATCHDOG_ALL /\
@@ -311,27 +311,45 @@ Theorem C03_nested_moveout_repaired :
 Proof. exact nested_moveout_repaired. Qed.
 Print Assumptions C03_nested_moveout_repaired.
 
-(* History-level soundness of the current code (all four reader repairs on). *)
+(* F10e: mkdir R/c; mv R/c R/b; mkdir R/c back to back, drain, mv R/b R/c/c; mkdir R/c/b.  The name of a directory that was
+   renamed before its first read is re-used before that read; inotify_add_watch("R/c") then returns the descriptor of
+   whatever is at R/c now.  Code BEFORE the repair of F10e (c_fix_relabel = false, every other reader repair on): a stale key
+   stays, a later rename drags the wrong watch, and mkdir R/c/b is delivered as DirCreated(R/c/c/b), a path that never
+   existed. *)
+Theorem C03_sound_pinned_refuted_f10e :
+  c_fix_relabel (pc_reader f10e_cfg) = false /\
+  exists s0 s obs, pinit f10e_cfg ph_world = Some s0 /\ prun f10e_cfg s0 f10e_history [] = Done (s, obs) /\
+    In (mk DirCreated e_Rccb []) (p_out s) /\ fexists e_Rccb (w_fs (p_world s)) = false /\
+    fexists e_Rcb (w_fs (p_world s)) = true /\
+    sound_along f10e_cfg s0 [] f10e_history = false.
+Proof. exact sound_pinned_refuted_f10e. Qed.
+Print Assumptions C03_sound_pinned_refuted_f10e.
+
+(* The same history on the current code (all repairs on): sound; every event names a path that existed (DirCreated(R/c/b) is
+   delivered); the final tables are inverse to each other and record every kernel watch under the present path of its inode. *)
+Theorem C03_f10e_repaired :
+  exists s0 s obs, pinit fx_cfg ph_world = Some s0 /\ prun fx_cfg s0 f10e_history [] = Done (s, obs) /\
+    sound_along fx_cfg s0 [] f10e_history = true /\
+    forallb (fun ev => known_path (ev_src ev) && known_path (ev_dest ev)) (p_out s) = true /\
+    In (mk DirCreated e_Rcb []) (p_out s) /\
+    wfp (p_r s) = [(ph_R, 1%N); (e_Rc, 2%N); (e_Rcc, 3%N); (e_Rcb, 4%N)] /\
+    pfw (p_r s) = [(1%N, ph_R); (2%N, e_Rc); (3%N, e_Rcc); (4%N, e_Rcb)] /\
+    consistent (p_r s) /\
+    forallb (fun kw => match alookup N.eqb (kw_wd kw) (pfw (p_r s)) with
+                       | Some q => N.eqb (ino_of (w_fs (p_world s)) q) (kw_ino kw) && fisdir q (w_fs (p_world s))
+                       | None => false end) (k_watches (p_k s)) = true.
+Proof. exact f10e_repaired. Qed.
+Print Assumptions C03_f10e_repaired.
+
+(* History-level soundness of the current code (all five reader repairs on): stated, NOT proved.  Nothing refutes it any
+   more: F10, its nested variant and F10e are repaired (the three _repaired theorems above), and the thorough tier of this
+   check finds no unjustified event on the patched observer.  A proof needs the bookkeeping invariant (consistent,
+   normalised tables; every watch recorded under the present path of its inode) over all reader steps. *)
 Definition C03_sound_full_current : Prop :=
   forall P w s0 h, pc_filter P = None -> c_mask (pc_reader P) = WATCHDOG_ALL ->
     c_fix_ignored (pc_reader P) = true -> c_fix_movein (pc_reader P) = true -> c_fix_simulate (pc_reader P) = true ->
-    c_fix_moveout (pc_reader P) = true ->
+    c_fix_relabel (pc_reader P) = true -> c_fix_moveout (pc_reader P) = true ->
     pinit P w = Some s0 -> sound_along P s0 [] h = true.
-
-(* Still false, by the one remaining known finding F10e (not a move-out): mkdir R/c; mv R/c R/b; mkdir R/c back to back -
-   the name of a directory renamed before its first read is re-used before that read; later mv R/b R/c/c; mkdir R/c/b is
-   delivered as DirCreated(R/c/c/b). *)
-Theorem C03_sound_current_refuted_f10e :
-  exists s0 s obs, pinit fx_cfg ph_world = Some s0 /\ prun fx_cfg s0 f10e_history [] = Done (s, obs) /\
-    In (mk DirCreated e_Rccb []) (p_out s) /\ fexists e_Rccb (w_fs (p_world s)) = false /\
-    fexists e_Rcb (w_fs (p_world s)) = true /\
-    sound_along fx_cfg s0 [] f10e_history = false.
-Proof. exact sound_current_refuted_f10e. Qed.
-Print Assumptions C03_sound_current_refuted_f10e.
-
-Theorem C03_sound_full_current_refuted : ~ C03_sound_full_current.
-Proof. exact sound_full_current_false. Qed.
-Print Assumptions C03_sound_full_current_refuted.
 
 (* ================================================================== tie to the Pipeline model *)
 (* [deliver_one] is what the Pipeline model (validated in lock-step against the real observer) delivers for
